@@ -25,7 +25,7 @@ ASSUMPTIONS = ["per-session event sequences follow the life cycle of TopicLogSyn
                "running = started - ended presupposes that sessions announce themselves with SessionStarted (they do not today: C22)"]
 TRUSTED = ["modelled not verified: HashMap/HashSet as finite maps, u32 debug-build arithmetic (overflow = panic)",
            "which event sequences a real session emits (C22) is not part of this model"]
-RULE = ("quick: all interleavings of two fixed short sessions (finished with live traffic x failed in live mode: 210) in both start modes, "
+RULE = ("quick: all interleavings of two fixed short sessions (finished without live traffic x failed in live mode; 462 + 126 histories for the two start modes), "
         "600 random interleavings of 1-4 random life-cycle walks (cut anywhere), 150 perturbed (dropped/duplicated/swapped events, free metrics), "
         "30 near the u32 boundary; thorough: 3 fixed pairs, 3000 random, 600 perturbed, 100 boundary. non-trivial = well-formed history with >= 2 "
         "sessions in which a SessionFinished follows a SyncFinished with non-zero sync bytes (the double-count site)")
